@@ -1,0 +1,16 @@
+//go:build verif
+
+package deptest
+
+import "deps.dev/util/resolve/dep"
+
+// VerifKeys returns copies of the key tables ParseString works from: every
+// known key, in table order, and the keys that take no value.
+func VerifKeys() (all []dep.AttrKey, flags map[dep.AttrKey]bool) {
+	all = append(all, allKeys...)
+	flags = make(map[dep.AttrKey]bool, len(flagKeys))
+	for k, v := range flagKeys {
+		flags[k] = v
+	}
+	return all, flags
+}
